@@ -99,6 +99,9 @@ func init() {
 					x.fail("Partition: main loop is not `for i < len(vs)`")
 				}
 				lb := loop.Body.List
+				if len(lb) == 5 {
+					x.orderPair(lb, 3, "i++") // `i++; j++` are independent: either order
+				}
 				if x.wantStmts("Partition (loop)", lb, "for j < len(vs) && !keep(vs[j]) { j++ }", "*", "vs[i], vs[j] = vs[j], vs[i]", "i++", "j++") {
 					d := lb[1].(*ast.IfStmt)
 					fs.set("partitionDone", x.CondExpr(d.Cond, V, true), "`Partition`: `if "+x.Src(d.Cond)+"` — return inside the loop")
